@@ -2,10 +2,10 @@
 # Confirm (once) and run the checks against every seeded change found in /tmp/wt-*/seeded and
 # already kept under /verif/seeded. Usage: seeded_all.sh [prop ...]
 export MUT_LAB=${MUT_LAB:-/tmp/mutlab}
-# Usage: seeded_all.sh [round [prop ...]]   round 1 = /tmp/wt-Cxx (kept as <prop>-<n>), round 2 = /tmp/wt2-Cxx (<prop>-b<n>), round 3 = /tmp/wt3-Cxx (<prop>-c<n>)
+# Usage: seeded_all.sh [round [prop ...]]   round 1 = /tmp/wt-Cxx (kept as <prop>-<n>), round 2 = /tmp/wt2-Cxx (<prop>-b<n>), round 3 = /tmp/wt3-Cxx (<prop>-c<n>), round 4 = /tmp/wt4-Cxx (<prop>-d<n>)
 round=${1:-1}; shift
 props="$@"
-if [ "$round" = "2" ]; then pre=/tmp/wt2-; tag=b; elif [ "$round" = "3" ]; then pre=/tmp/wt3-; tag=c; else pre=/tmp/wt-; tag=; fi
+if [ "$round" = "2" ]; then pre=/tmp/wt2-; tag=b; elif [ "$round" = "3" ]; then pre=/tmp/wt3-; tag=c; elif [ "$round" = "4" ]; then pre=/tmp/wt4-; tag=d; else pre=/tmp/wt-; tag=; fi
 [ -z "$props" ] && props=$(ls -d ${pre}C* 2>/dev/null | sed "s#${pre}##")
 for prop in $props; do
   wt=${pre}$prop
